@@ -801,10 +801,11 @@ func (db *Default) ProfileByHumanID(
 		return nil, nil, fmt.Errorf("%s: %w", errPrefix, err)
 	}
 
-	if humanID != d.HumanIDLower {
+	if humanID != d.HumanIDLower || p.ID != id {
 		// Perhaps, the device has changed its human ID, for example by being
-		// transformed into a normal device..  Remove it from our profile DB in
-		// a goroutine, since that requires a write lock.
+		// transformed into a normal device, or has been moved to another
+		// profile.  Remove it from our profile DB in a goroutine, since that
+		// requires a write lock.
 		go db.removeHumanID(ctx, k)
 
 		return nil, nil, fmt.Errorf("%s: rechecking human id: %w", errPrefix, ErrDeviceNotFound)
@@ -824,7 +825,8 @@ func (db *Default) removeHumanID(ctx context.Context, k humanIDKey) {
 	// Recheck, since the human ID could have been given to another device while
 	// this goroutine was waiting for the lock.
 	if id, ok := db.humanIDToDeviceID[k]; ok {
-		if d := db.devices[id]; d != nil && d.HumanIDLower == k.lower {
+		d := db.devices[id]
+		if d != nil && d.HumanIDLower == k.lower && db.deviceIDToProfileID[id] == k.profile {
 			return
 		}
 	}
